@@ -43,6 +43,17 @@ def cases(draw, modes=("exposure", "exposure", "exposure_debug", "obs_seq", "obs
         "det_type": draw(st.sampled_from(["CCD", "CMOS", "MKID", "APD"])),
         "non_destructive": draw(st.booleans()),
     }
+    entries = [(g, m) for g, ms in spec["groups"].items() if ms for m in ms]
+    if entries and draw(st.sampled_from([False, False, True])):
+        # the same model entry listed again in another group; in the YAML rendering it is written once and referred to by an alias (&id / *id)
+        import copy as _copy
+
+        g, m = entries[draw(st.integers(0, len(entries) - 1))]
+        free = [g2 for g2 in GROUP_ORDER if g2 != g and m["name"] not in [x["name"] for x in (spec["groups"].get(g2) or [])]]
+        g2 = draw(st.sampled_from(free))
+        spec["groups"][g2] = list(spec["groups"].get(g2) or []) + [_copy.deepcopy(m)]
+        spec["yaml_aliases"] = True
+        case["has_aliased_entry"] = True
     if mode == "calibration":
         case["steps"] = 1  # a calibration with the default readout evaluates one readout per candidate
         case["pygmo_seed"] = draw(st.integers(0, 100000))
@@ -93,6 +104,8 @@ def body(case, rec):
     P.reset()
     spec, steps, mode = case["pipeline"], case["steps"], case["mode"]
     rec.cls(f"mode:{mode}", f"render:{case['render']}", f"steps:{steps}")
+    if case.get("has_aliased_entry"):
+        rec.cls("yaml_alias" if case["render"] == "yaml" else "repeated_entry_python")
     rec.nt(_nontrivial(case))
     ref = _strip(reference_calls(spec, steps))
     if any(mm.get("enabled") is False for m in spec["groups"].values() if m for mm in m):
